@@ -19,7 +19,7 @@ IO_CALLS = {'print', 'breakpoint', 'input', 'pprint', 'pprint.pprint', 'ET.dump'
             'sys.stdout.writelines', 'sys.stderr.writelines', 'warnings.warn', 'traceback.print_exc',
             'traceback.print_exception', 'traceback.print_stack', 'logging.warning', 'logging.error', 'logging.critical',
             'logging.exception', 'logging.info', 'logging.debug', 'logging.log', 'logging.basicConfig', 'os.write'}
-LOGGER_METHODS = {'warning', 'warn', 'error', 'critical', 'exception', 'info', 'debug', 'log'}
+LOGGER_METHODS = {'warning', 'warn', 'error', 'critical', 'exception', 'log'}      # debug/info are not emitted by an unconfigured logging module (lastResort: WARNING)
 FRESH_CALLS = {'copy.copy', 'copy.deepcopy', 'dict', 'list', 'set', 'ET.Element', 'ET.fromstring', 'sorted', 'tuple'}
 
 
